@@ -187,7 +187,7 @@ class _r_triples_frames:
     params = {"stream": OBJ(f"{SS}:TripleStream@r"), "data": Sort("rgraph", False)}
     variants = _r_variants()
     yields = MSG("RdfStreamFrame")
-    shards = 6
+    shards = 9          # one worker per variant
     modifies = STMT_MOD
     # loop 0: the graphs (one for a Graph / generator, arbitrarily many for a Dataset); loop 1: the statements of a graph
     loops = {0: LoopSpec(invariant=_stmt_loop, modifies=STMT_MOD[:5]),
